@@ -86,7 +86,7 @@ def main():
         "hooks": {
             "guard": "edp_verif",
             "enable": "RUSTFLAGS='--cfg edp_verif' (set by /verif/check and /verif/sim/.cargo/config.toml); C16 additionally builds shadow manifests with --cfg edp_verif_shuttle",
-            "baseline_off_cmd": "cd /repo && cargo test --workspace --no-fail-fast --offline",
+            "baseline_off_cmd": "cd /repo && cargo nextest run --workspace --no-fail-fast --tool-config-file pb:/w/lib/nextest.toml --profile pb --test-threads 8 --offline",
             "source_commits": [h.split()[0] for h in hooks],
             "add_only": True,
         },
